@@ -137,6 +137,27 @@ CLAIMED = {
         "note": "Trusted: TLC. Only SquaredExponential supports derivative predictions.",
         "ref": "DESIGN.md section 3 C16",
     },
+    "C17": {
+        "technique": "InvertExact.tla: exact linear-Gaussian posterior, evidence and evidence gradient on the KernelExact families, "
+                     "enumerated by TLC and replayed into GpLinearInverter",
+        "text": "80 problems: under-, exactly- (incl. rank-deficient) and over-determined integer model matrices (1x2 .. 3x2, 1x3, 2x3), "
+                "parameters on 1-D and 2-D lattices, SE and RQ priors, constant and linear means, uniform and per-datum errors: posterior "
+                "mean (full and mean-only paths), covariance (symmetric PSD, below the prior), evidence and its gradient must equal the "
+                "exact values to 1e-9.",
+        "note": "Trusted: TLC, math.log. Hyper-parameter optimisation of the inverter (Nelder-Mead) is not part of the property.",
+        "ref": "DESIGN.md section 3 C17",
+    },
+    "C18": {
+        "technique": "Acquire.tla: UCB / MaxVariance / closed-form expected improvement and gradients over product atoms, on GpExact posteriors; "
+                     "AcquireSM.tla propose/add state machine; GpOptimiser call traces validated by AcquireTrace.tla",
+        "text": "432 (regressor state, query point) pairs with improvement z-scores from -29 to +5 (149 in the far-tail branch): __call__, "
+                "opt_func and opt_func_gradient of the three classes against the exact values (EI relative to EI itself); every TLC "
+                "propose/add history (sampled) run on a real GpOptimiser in 1-D and 2-D with both optimisers: proposals inside the bounds, "
+                "added points join the next model's data, incumbent updated, caller arrays byte- and shape-identical.",
+        "note": "Trusted: TLC, math.erf/erfc. EI is taken as the closed form of the expectation (not integrated); continuity across the branch "
+                "switch is checked at enumerated z-scores on both sides.",
+        "ref": "DESIGN.md section 3 C18",
+    },
     "C13": {
         "technique": "Hdi.tla: declarative Good predicate + algorithm model, AlgorithmIsGood model-checked by TLC over every small sample "
                      "and fraction; every enumerated case run through the real sample_hdi in 8 call variants and judged by HdiTrace.tla",
